@@ -5,13 +5,24 @@ package mmap
 //     (unit built with -race; the race detector does not instrument the
 //     mmap'd bytes themselves, so the pattern comparison is what observes
 //     aliasing of vector bytes, -race observes the slot table / chunk list);
+//     snapshotter goroutines call GetState and then read and gob-encode the
+//     returned value, as core.Snapshot() does after the arena lock is
+//     released, while the compactor (and an AllocSlot/FreeSlot churn on ids
+//     of its own) keeps running: a returned slice that shares its backing
+//     array with the live allocator is a data race (the unit runs with
+//     GORACE=halt_on_error=1, the in-flight case is the replay) and, without
+//     relying on the detector, the value must stay equal to a copy taken at
+//     once and stay a consistent cut (no slot both free and assigned);
 //   * geometry  - the unmodified 64 MiB chunk geometry: slots at both ends of
 //     several chunks for generated vector sizes neither overlap each other
 //     nor the 64-byte header, and survive close/reopen.
 
 import (
 	"bytes"
+	"encoding/gob"
 	"fmt"
+	"io"
+	"runtime"
 	"sync"
 	"sync/atomic"
 	"testing"
@@ -26,16 +37,19 @@ import (
 type c18CCase struct {
 	VecSize  int      `json:"vec_size"`
 	PerChunk int      `json:"per_chunk"`
-	N        int      `json:"n"`       // ids 0..n-1 are allocated and written
-	Free     []uint32 `json:"free"`    // then these are freed (holes for the compactor)
-	Readers  int      `json:"readers"` // reader goroutines
-	Cycles   int      `json:"cycles"`  // real RunCycle calls (deadline + Stop)
-	Steps    int      `json:"steps"`   // deterministic relocation batches run by the compacting goroutine between cycles
+	N        int      `json:"n"`               // ids 0..n-1 are allocated and written
+	Free     []uint32 `json:"free"`            // then these are freed (holes for the compactor)
+	Readers  int      `json:"readers"`         // reader goroutines
+	Cycles   int      `json:"cycles"`          // real RunCycle calls (deadline + Stop)
+	Steps    int      `json:"steps"`           // deterministic relocation batches run by the compacting goroutine between cycles
+	Snaps    int      `json:"snaps,omitempty"` // snapshotter goroutines: GetState, then read + gob-encode the returned value
+	Churn    int      `json:"churn,omitempty"` // ids n..n+churn-1 are allocated/freed (AllocSlot/FreeSlot only, no byte access) by one more goroutine during the concurrent phase
 }
 
 type c18CStats struct {
 	reads, movedBetween, relocations int64
 	timeouts                         int
+	states, statesWithFree, churnOps int64
 }
 
 // A reader obtains the bytes of a live id with GetBytes, exactly as a caller
@@ -104,8 +118,104 @@ func c18Reader(r *c18Runner, ids []uint32, start int, stop *atomic.Bool, fail *a
 	}
 }
 
+// c18Snapshotter does what core.Snapshot() does with the arena: obtain the
+// state under the arena's lock (GetState), then - the lock long released, the
+// allocator being mutated by others - read every element and gob-encode it.
+// Besides the race detector's view of those reads: the value must not change
+// while it is held and must be a consistent cut of the allocator.
+func c18Snapshotter(r *c18Runner, stop *atomic.Bool, fail *atomic.Pointer[string], st *c18CStats) {
+	va := r.va
+	report := func(m string) {
+		fail.CompareAndSwap(nil, &m)
+		stop.Store(true)
+	}
+	defer func() {
+		if rec := recover(); rec != nil {
+			report(fmt.Sprintf("panic while reading/encoding a value returned by GetState during compaction: %v", rec))
+		}
+	}()
+	for !stop.Load() {
+		held := va.GetState()
+		cp := c18CloneState(held) // reads every element once
+		first, err := c18GobState(held)
+		if err != nil {
+			report(fmt.Sprintf("a value returned by GetState cannot be gob-encoded: %v", err))
+			return
+		}
+		if m := c18StateSelfCheck(held); m != "" {
+			report("during compaction GetState returned an inconsistent state: " + m)
+			return
+		}
+		for i := 0; i < 3 && !stop.Load(); i++ { // hold it for a while, as a snapshot of many indexes does
+			runtime.Gosched()
+			var sum uint64
+			for _, x := range held.SlotTable {
+				sum += uint64(x)
+			}
+			for _, x := range held.FreeSlots {
+				sum += uint64(x)
+			}
+			_ = sum
+			if err := gob.NewEncoder(io.Discard).Encode(held); err != nil {
+				report(fmt.Sprintf("a value returned by GetState cannot be gob-encoded: %v", err))
+				return
+			}
+		}
+		d := c18StateDiff(cp, held)
+		if d == "" {
+			if again, err := c18GobState(held); err != nil || !bytes.Equal(first, again) {
+				d = "its gob encoding differs from the one taken when GetState returned"
+			}
+		}
+		if d != "" {
+			report("an ArenaState changed after GetState returned it, while the compactor was running: " + d + " (GetState returns copies; core.Snapshot() encodes the value after the arena lock is released)")
+			return
+		}
+		if m := c18StateSelfCheck(held); m != "" {
+			report("an ArenaState held during compaction became inconsistent: " + m)
+			return
+		}
+		atomic.AddInt64(&st.states, 1)
+		if len(held.FreeSlots) > 0 {
+			atomic.AddInt64(&st.statesWithFree, 1)
+		}
+	}
+}
+
+// c18Churn allocates and frees ids of its own (never in the model, never
+// read by a reader). It only calls AllocSlot/FreeSlot - pop and push on the
+// allocator's free list - and never touches vector bytes, so whatever the
+// compactor does with these slots cannot reach a model id's bytes through
+// this goroutine.
+func c18Churn(va *VectorArena, base uint32, n int, stop *atomic.Bool, fail *atomic.Pointer[string], st *c18CStats) {
+	defer func() {
+		if rec := recover(); rec != nil {
+			m := fmt.Sprintf("panic in AllocSlot/FreeSlot during compaction: %v", rec)
+			fail.CompareAndSwap(nil, &m)
+			stop.Store(true)
+		}
+	}()
+	for k := 0; !stop.Load(); k++ {
+		id := base + uint32(k%n)
+		if (k/n)%2 == 0 {
+			if _, err := va.AllocSlot(id); err != nil {
+				m := fmt.Sprintf("AllocSlot(%d) failed during compaction: %v", id, err)
+				fail.CompareAndSwap(nil, &m)
+				stop.Store(true)
+				return
+			}
+		} else {
+			va.FreeSlot(id)
+		}
+		atomic.AddInt64(&st.churnOps, 1)
+		if k%4 == 3 {
+			runtime.Gosched()
+		}
+	}
+}
+
 func c18RunCCase(c c18CCase, deadline time.Duration, st *c18CStats) (msg string, hz *c18Harness) {
-	if c.VecSize < 1 || c.PerChunk < 1 || c.N < 1 || c.N > 4096 || c.Readers < 1 || c.Readers > 64 {
+	if c.VecSize < 1 || c.PerChunk < 1 || c.N < 1 || c.N > 4096 || c.Readers < 1 || c.Readers > 64 || c.Snaps < 0 || c.Snaps > 8 || c.Churn < 0 || c.Churn > 256 {
 		return "", nil
 	}
 	dir, cleanup := verifkit.TempDir("c18conc")
@@ -149,6 +259,20 @@ func c18RunCCase(c c18CCase, deadline time.Duration, st *c18CStats) (msg string,
 			}(g)
 		}
 	}
+	for g := 0; g < c.Snaps; g++ {
+		wg.Add(1)
+		go func() {
+			defer wg.Done()
+			c18Snapshotter(r, &stop, &fail, st)
+		}()
+	}
+	if c.Churn > 0 {
+		wg.Add(1)
+		go func() {
+			defer wg.Done()
+			c18Churn(r.va, uint32(c.N), c.Churn, &stop, &fail, st)
+		}()
+	}
 	// the compacting goroutine (this one)
 	for k := 0; k < c.Cycles && !stop.Load(); k++ {
 		for s := 0; s < c.Steps && !stop.Load(); s++ {
@@ -171,6 +295,9 @@ func c18RunCCase(c c18CCase, deadline time.Duration, st *c18CStats) (msg string,
 	if p := fail.Load(); p != nil {
 		return *p, nil
 	}
+	for j := 0; j < c.Churn; j++ { // the churn ids are not part of the model: release them
+		r.va.FreeSlot(uint32(c.N + j))
+	}
 	if m := r.check("after the concurrent phase"); m != "" {
 		return m, nil
 	}
@@ -185,7 +312,7 @@ func c18RunCCase(c c18CCase, deadline time.Duration, st *c18CStats) (msg string,
 
 func TestVerif_C18_arenaconc(t *testing.T) {
 	c18Quiet()
-	col := verifkit.New("C18", "arenaconc", "rapid: arena with vector size {8,24,100,512}, 2-8 vectors per chunk (lowered, see part arena), 12-96 ids written, a generated subset freed (holes), then 2-6 reader goroutines loop over all live ids (GetBytes, compare under slotMu.RLock with the id's own pattern, node pointer must alias the current slot) while this goroutine runs 1-3 x (0-6 deterministic relocation sweeps (one batch per chunk) + one real RunCycle under a deadline, ended with Stop()); afterwards the sequential invariants, close/reopen/LoadState and the invariants again; built with -race; non-trivial = vectors were relocated while readers were running and live ids span >=3 chunks")
+	col := verifkit.New("C18", "arenaconc", "rapid: arena with vector size {8,24,100,512}, 2-8 vectors per chunk (lowered, see part arena), 12-96 ids written, a generated subset freed (holes), then 2-6 reader goroutines loop over all live ids (GetBytes, compare under slotMu.RLock with the id's own pattern, node pointer must alias the current slot) while this goroutine runs 1-3 x (0-6 deterministic relocation sweeps (one batch per chunk) + one real RunCycle under a deadline, ended with Stop()), 1-2 snapshotter goroutines loop GetState -> copy, gob-encode, read every element three more times with yields, compare with the copy and the first encoding, the value must be and stay a consistent cut (no physical slot assigned twice, none both on FreeSlots and in SlotTable), and optionally one goroutine alternately AllocSlot/FreeSlot-s 4 or 16 ids of its own (no byte access); a data race report ends the process (GORACE=halt_on_error=1) and the journalled case is the replay; afterwards the sequential invariants, close/reopen/LoadState and the invariants again; built with -race; non-trivial = vectors were relocated while readers were running and live ids span >=3 chunks")
 	defer col.Finish()
 	deadline := time.Duration(verifkit.Pick(25, 60)) * time.Millisecond
 	if p := verifkit.ReplayPath(); p != "" {
@@ -200,7 +327,9 @@ func TestVerif_C18_arenaconc(t *testing.T) {
 		// a schedule-dependent failure may need several attempts
 		for i := 0; i < 20; i++ {
 			var st c18CStats
+			col.InFlight(c) // a data race report ends the process when GORACE=halt_on_error=1
 			msg, hz := c18RunCCase(c, 60*time.Millisecond, &st)
+			col.Landed()
 			if hz != nil {
 				t.Fatalf("harness: %s", hz.msg)
 			}
@@ -212,11 +341,14 @@ func TestVerif_C18_arenaconc(t *testing.T) {
 		return
 	}
 	verifkit.RapidSetup(60, 3000)
-	var totalReads, totalMoved, totalReloc int64
+	var totalReads, totalMoved, totalReloc, totalStates, totalStatesFree, totalChurn int64
 	defer func() {
 		col.Extra("reader_verifications", totalReads)
 		col.Extra("reads_overtaken_by_a_relocation", totalMoved)
 		col.Extra("relocations_during_reads", totalReloc)
+		col.Extra("arena_states_held_and_encoded_during_compaction", totalStates)
+		col.Extra("of_which_with_nonempty_freelist", totalStatesFree)
+		col.Extra("churn_allocslot_freeslot_calls", totalChurn)
 	}()
 	rapid.Check(t, func(rt *rapid.T) {
 		c := c18CCase{
@@ -229,6 +361,8 @@ func TestVerif_C18_arenaconc(t *testing.T) {
 		}
 		nf := rapid.IntRange(1, c.N-1).Draw(rt, "nfree")
 		c.Free = rapid.SliceOfNDistinct(rapid.Uint32Range(0, uint32(c.N-1)), nf, nf, func(x uint32) uint32 { return x }).Draw(rt, "free")
+		c.Snaps = rapid.IntRange(1, 2).Draw(rt, "snaps")
+		c.Churn = rapid.SampledFrom([]int{0, 4, 16}).Draw(rt, "churn")
 		var st c18CStats
 		col.InFlight(c)
 		msg, hz := c18RunCCase(c, deadline, &st)
@@ -239,7 +373,19 @@ func TestVerif_C18_arenaconc(t *testing.T) {
 		totalReads += st.reads
 		totalMoved += st.movedBetween
 		totalReloc += st.relocations
+		totalStates += st.states
+		totalStatesFree += st.statesWithFree
+		totalChurn += st.churnOps
 		var labels []string
+		if st.statesWithFree > 0 {
+			labels = append(labels, "captured-state-with-nonempty-freelist")
+		}
+		if st.states > 0 && st.relocations > 0 {
+			labels = append(labels, "states-held-and-encoded-while-relocating")
+		}
+		if st.churnOps > 0 {
+			labels = append(labels, "allocslot/freeslot-churn")
+		}
 		if st.relocations > 0 {
 			labels = append(labels, "relocations-while-reading")
 		}
